@@ -57,16 +57,20 @@ def main():
         tgt = prop in fired
         engine = any(any("/engine/" in k for k in v) for v in fired.values())
         print("%-8s breaks %s  %s %s  by %s" % (name, prop, "CAUGHT" if fired else "MISSED", "(target)" if tgt else "", {k: v[:2] for k, v in fired.items()}))
-        if not fired or engine:
+        declined = json.load(open(os.path.join(HERE, "seeded", name, "meta.json"))).get("declined")
+        if (not fired and not declined) or engine:
             bad += 1
+        if not fired and declined:
+            print("         declined: " + declined[:160])
         summary[name] = {"breaks_property": prop, "caught": bool(fired), "caught_by_target_property": tgt, "checks_fired": fired}
         m = json.load(open(os.path.join(HERE, "seeded", name, "meta.json")))
         m.update(summary[name])
         json.dump(m, open(os.path.join(HERE, "seeded", name, "meta.json"), "w"), indent=1)
     json.dump(summary, open(os.path.join(HERE, "seeded", "SUMMARY.json"), "w"), indent=1)
     n = len(summary)
-    print("seeded: %d changes, %d caught, %d caught by the targeted property's own check, %d problem(s)"
-          % (n, sum(v["caught"] for v in summary.values()), sum(v["caught_by_target_property"] for v in summary.values()), bad))
+    print("seeded: %d changes, %d caught, %d caught by the targeted property's own check, %d declined (documented miss), %d problem(s)"
+          % (n, sum(v["caught"] for v in summary.values()), sum(v["caught_by_target_property"] for v in summary.values()),
+             sum(1 for v in summary.values() if not v["caught"]) - bad if bad <= sum(1 for v in summary.values() if not v["caught"]) else 0, bad))
     return 1 if bad else 0
 
 
